@@ -134,6 +134,7 @@ TEval ==
          faultexp == IF Ev.fault = "exception" THEN "InjectedTargetError"
                      ELSE IF Ev.fault = "exception2" THEN "InjectedTargetError2"
                      ELSE IF Ev.fault = "exception3" THEN "InjectedStopIteration"
+                     ELSE IF Ev.fault = "exception4" THEN "InjectedLinAlgError"
                      ELSE "ValueError"
          st2   == [st EXCEPT !.nev = st.nev + 1,
                              !.rem = IF ispoll THEN st.rem \ {d} ELSE st.rem]
@@ -161,6 +162,9 @@ TEval ==
                  ELSE "C02.no_infeasible_eval")
         \* the evaluated point is a row the candidate filter returned in this step (initial design, search,
         \* poll): nothing is altered or added between filtering and evaluation
+        \* a candidate handed on for evaluation satisfies the non-box constraints (C17's statement; C02 states the
+        \* same fact about target calls)
+        \cup Chk((has /\ Ev.kind \in {"init", "search", "poll"}) => ~Ev.viol, "C17.evaluated_candidate_feasible")
         \cup Chk(Ev.infilt, "C17.evaluated_point_was_filtered")
         \* ... and each filtered candidate is handed to the target at most once per step (counted from the
         \* filter call on, so that the recorded finding "already evaluated points are kept" does not hide it)
@@ -173,7 +177,7 @@ TEval ==
                     => Ev.n <= s.budgetEff, "C03.budget_respected")
         \cup Chk(~s.faulted, "C10.no_call_after_fault")
         \cup Chk(Ev.fault # "" => Ev.outcome = faultexp,
-                 IF Ev.fault \in {"exception", "exception2", "exception3"} THEN "C10.same_exception_type"
+                 IF Ev.fault \in {"exception", "exception2", "exception3", "exception4"} THEN "C10.same_exception_type"
                  ELSE "C10.invalid_value_is_valueerror")
         \cup Chk(~ok => Ev.nlogged = s.nlog, "C10.nothing_invalid_logged")
         \cup Chk((ok /\ Ev.fault = "") => Ev.retok, "C12.returned_value_is_observed")
@@ -356,7 +360,9 @@ TPollEnd ==
         \cup Chk(Ev.npolled <= 2 * s.D /\ Ev.npolled = s.step.nev, "C14.at_most_2D")
         \cup Chk(s.budgetApplies => Ev.fc <= Max2(s.budgetEff, s.fcInit), "C03.budget_respected")
         \cup Chk(Ev.iter = s.iter, "C03.controller_follows_spec")
-        \cup Chk(Ev.paired, "MACH.poll_pairing")
+        \* (after a target fault the run should have ended: the pairing of poll evaluations with improvement
+        \*  evaluations is then meaningless, and the C10 clauses report the continued run)
+        \cup Chk(Ev.paired \/ s.faulted, "MACH.poll_pairing")
         \cup Chk(Ev.ongp, "C13.success_judged_on_gp_estimate")
         \cup Chk(Ev.ovf = NextOverflows(Ev.ovfb, Ev.good, kb, c.kcap), "EXT.mesh_overflow_count")
         \cup Chk(Det => (Ev.incuid = expInc.uid /\ Ev.incyR = expInc.yR),
@@ -467,6 +473,7 @@ TGPTrainSet ==
         \cup Chk(Ev.nunlogged = 0 /\ Ev.nvalmis = 0, "C15.train_is_logged")
         \cup Chk(Ev.s2ok /\ Ev.s2lenok, "C15.s2_is_variance")
         \cup Chk(Ev.allused, "C15.init_uses_all_logged")
+        \cup Chk(Ev.trainisnbr, "C15.train_set_is_neighbour_set")
         \* the neighbourhood is centred on the current incumbent (poll, search); the noisy search step also
         \* fits a tentative GP around the point it has just evaluated
         \cup Chk((Ev.site = "local:poll" => Ev.centre = "inc")
@@ -489,6 +496,9 @@ TGPAdd ==
 TAcq ==
   /\ IsEv("Acq")
   /\ Step(s, Chk(Ev.defbeta => Ev.lcbok, "C15.lcb_formula")
+        \* the values the evolution strategies rank candidates by are that lower confidence bound (default or
+        \* user-supplied annealing schedule, recomputed by the observer from GP.predict)
+        \cup Chk((Ev.site = "es" /\ Ev.defbeta) => Ev.lcbok, "C18.acquisition_is_lcb")
         \cup Chk(Ev.fcarg = Ev.fctrue /\ Ev.fctrue = s.fc, "C15.beta_uses_fc_plus_one"))
 
 TESReturn ==
@@ -568,6 +578,8 @@ TResult ==
         \cup Chk(Ev.iterations = s.iter \/ Ev.msg = "outfcn", "C19.result_fields_agree")
         \cup Chk(Ev.iterations <= s.cfg.maxiter - 1 \/ s.cfg.maxiter < 1, "C03.iter_bounded")
         \cup Chk(s.cfg.pow2 => (Ev.kmesh = s.k /\ Ev.kfinal = s.k), "C19.result_fields_agree")
+        \* the mesh size reported in the result is the one in force when the run ended (C13: changed only by polls)
+        \cup Chk(s.cfg.pow2 => Ev.kmesh = s.k, "C13.result_mesh_is_current")
         \cup Chk(Ev.x0ok /\ Ev.seedok /\ Ev.ptypeok, "C19.result_fields_agree")
         \cup Chk(Ev.ttype = (IF s.uhl = 0 THEN "deterministic"
                               ELSE IF s.uhl = 2 THEN "stochastic (specified noise)" ELSE "stochastic"),
@@ -607,14 +619,15 @@ TCrash ==
          inj == s.injected # ""
          exptype == IF s.injected = "exception" THEN "InjectedTargetError"
                     ELSE IF s.injected = "exception2" THEN "InjectedTargetError2"
-                    ELSE IF s.injected = "exception3" THEN "InjectedStopIteration" ELSE "ValueError"
+                    ELSE IF s.injected = "exception3" THEN "InjectedStopIteration"
+                    ELSE IF s.injected = "exception4" THEN "InjectedLinAlgError" ELSE "ValueError"
      IN Step([s EXCEPT !.phase = "crashed", !.ended = "crash"],
              Chk(inj \/ Ev.type \in {"NonProgress", "RunTimeout"}, "C09.no_crash")
         \cup Chk(Ev.type # "NonProgress", "C03.non_progress_bounded")
         \* the per-run watchdog fired: optimize() did not return within the wall-clock limit
         \cup Chk(Ev.type # "RunTimeout", "C03.run_terminates")
         \cup Chk(inj => Ev.type = exptype,
-                 IF s.injected \in {"exception", "exception2", "exception3"} THEN "C10.same_exception_type"
+                 IF s.injected \in {"exception", "exception2", "exception3", "exception4"} THEN "C10.same_exception_type"
                  ELSE "C10.invalid_value_is_valueerror")
         \cup Chk(inj => (Ev.fc = n /\ Ev.ncalls = n + 1), "C10.count_only_valid")
         \cup Chk(inj => (Ev.loggedfinite /\ Ev.nlog <= n), "C10.nothing_invalid_logged"))
